@@ -171,6 +171,14 @@ func (e *Engine) escapes(v ssa.Value, seen map[ssa.Value]bool) bool {
 				continue
 			}
 			ct := e.contractFor(callee)
+			if ct != nil && e.inModule(callee) && !ct.Flags["trusted"] && (ct.Flags["pure"] || ct.Flags["noeffect"]) {
+				// a verified pure callee writes only objects it allocates: the argument is not stored anywhere that
+				// existed before; its result is a fresh object unless the contract says otherwise
+				if !ct.Flags["fresh"] && e.escapes(x, seen) {
+					return true
+				}
+				continue
+			}
 			if ct != nil && ct.HasMod && e.inModule(callee) {
 				// the callee writes only what its modifies clause lists: v escapes only if a *different* parameter
 				// roots a modified location (v could be stored there)
